@@ -11,7 +11,7 @@ use crate::sl;
 pub struct C07;
 
 /// Hostile argument pool (Starlark source expressions). Repeat counts stay bounded.
-const POOL: &[&str] = &[
+pub const POOL: &[&str] = &[
     "None",
     "True",
     "False",
@@ -121,12 +121,12 @@ def _deep(n):
 FZ_DEEP = _deep(120)
 "#;
 
-fn hostile_lib() -> &'static starlark::environment::FrozenModule {
+pub fn hostile_lib() -> &'static starlark::environment::FrozenModule {
     static L: std::sync::OnceLock<starlark::environment::FrozenModule> = std::sync::OnceLock::new();
     L.get_or_init(|| sl::run_and_freeze("hostile.star", HOSTILE_LIB, &sl::RunCfg::default(), &[]).1.expect("hostile library must evaluate and freeze"))
 }
 
-const PRELUDE: &str = r#"
+pub const PRELUDE: &str = r#"
 load("hostile.star", "FZ_LIST", "FZ_DICT", "FZ_TUPLE", "FZ_STRUCT", "FZ_FUNC", "FZ_REC", "FZ_EN", "FZ_SET", "FZ_NESTED", "FZ_PARTIAL", "FZ_DEEP")
 DEEP_LIST = []
 DEEP_DICT = {}
@@ -320,7 +320,7 @@ fn fresh_probe_tx() -> Vec<String> {
 }
 
 /// Values that contain themselves (signature of the open finding `debug-builtin-cyclic-value`).
-fn is_cyclic_pool(v: &str) -> bool {
+pub fn is_cyclic_pool(v: &str) -> bool {
     matches!(v, "SELF_LIST" | "SELF_DICT" | "SELF_TUPLE" | "SELF_STRUCT" | "FZ_LIST" | "FZ_DICT" | "FZ_TUPLE" | "FZ_STRUCT" | "FZ_PARTIAL" | "FZ_FUNC")
 }
 
@@ -337,7 +337,19 @@ fn enumerated_call(idx: usize) -> Option<String> {
 fn gen_args(ch: &mut Choices) -> String {
     let npos = ch.idx(4);
     let mut parts: Vec<String> = (0..npos).map(|_| (*ch.pick(POOL)).to_owned()).collect();
-    match ch.below(8) {
+    match ch.below(9) {
+        8 => {
+            // several named arguments at once (unknown, misplaced or duplicated-by-** names)
+            let names = ["x", "key", "default", "reverse", "sep", "base", "start", "end", "a", "zz", "k1", "k2"];
+            let n = 2 + ch.idx(3);
+            let start = ch.idx(names.len());
+            for i in 0..n {
+                parts.push(format!("{}={}", names[(start + i * 5) % names.len()], ch.pick(POOL)));
+            }
+            if ch.bool() {
+                parts.push("**{\"k3\": 1, \"k4\": 2, \"k5\": 3}".to_owned());
+            }
+        }
         0 => parts.push(format!("{}={}", ch.pick_s(&["x", "key", "default", "reverse", "sep", "base", "start", "end", "a"]), ch.pick(POOL))),
         1 => parts.push(format!("*{}", ch.pick(POOL))),
         2 => parts.push(format!("**{}", ch.pick_s(&["{\"x\": 1}", "{1: 2}", "{\"key\": len, \"key2\": 2}", "SELF_DICT", "[]", "None"]))),
@@ -363,7 +375,7 @@ fn is_sized(s: &str) -> bool {
 }
 
 /// One ill-typed snippet (a statement) built from the hostile pool.
-fn gen_snippet(ch: &mut Choices) -> String {
+pub fn gen_snippet(ch: &mut Choices) -> String {
     let cs = callables();
     match ch.weighted(&[10, 5, 2, 2, 2, 2]) {
         0 => {
